@@ -182,7 +182,7 @@ var initOnce sync.Once
 
 func initSchedulerGlobals() {
 	initOnce.Do(func() {
-		must(schedlog.InitLoggers(-1))
+		must(schedlog.InitLoggers(envIntRun("KAISIM_LOG_V", -1)))
 		actions.InitDefaultActions()
 		plugins.InitDefaultPlugins()
 		for _, n := range []string{"allocate", "consolidation", "reclaim", "preempt", "stalegangeviction"} {
